@@ -177,7 +177,11 @@ def fallback_case(draw, tier):
         comp = 0x1234
     c = {'fallback': fb, 'payload': draw(payload_st(tier)), 'kind': draw(st.sampled_from(['UD', 'ED'])),
          'creator': creator, 'comp': comp, 'ver': draw(S.byte), 'sub': draw(S.byte),
-         'exc': draw(st.sampled_from(PL.RAISES)), 'follow': draw(st.booleans())}
+         'exc': draw(st.sampled_from(PL.RAISES)), 'follow': draw(st.booleans()),
+         # a section of ANOTHER creator with the same component id, served by a parser, decoded first
+         'prior': draw(st.integers(0, 2)) == 0,
+         # same-named sections that are not contiguous: UD, unknown, <section under test>
+         'sandwich': draw(st.integers(0, 2)) == 0, 'other_payload': draw(S.payload(20))}
     if fb == 'raw-named':
         c['id'] = S.sid(draw(st.sampled_from(S.HEXDUMP_NAMED)))
     elif fb == 'raw-unknown':
@@ -214,10 +218,46 @@ def fallbacks(case, note):
         elif fb == 'plugins-off-with-module':
             spec = {'udparsers': {name: {'kind': 'json', 'value': {'should': 'not run'}}}}
     after = {'k': 'UD', 'ver': 1, 'sub': 1, 'comp': 0x2000, 'data': b'{"after": true}'} if case['follow'] else None
-    pel, idx = wrap(sec, phc, None, after)
+    secs = []
+    others = []         # (index, payload) of further hex-dumped sections that must survive too
+    if case.get('prior') and fb in ('no-module', 'plugins-off', 'raises', 'returns-none', 'plugins-off-with-module'):
+        pc = 'q' if chr(creator).lower() != 'q' else 'r'
+        spec.setdefault('udparsers', {})[PL.ud_module_name(pc, comp)] = {'kind': 'json', 'value': {'Prior': 'parser'}}
+        secs.append({'k': 'ED', 'ver': 1, 'sub': 1, 'comp': comp, 'creator': ord(pc), 'r1': 0, 'r2': 0,
+                     'data': b'prior section'})
+    if case.get('sandwich'):
+        twin = dict(sec, data=case['other_payload'])
+        if sec['k'] == 'RAW' or fb in ('no-module', 'plugins-off', 'builtin-other-subtype'):
+            others.append((len(secs), case['other_payload']))
+        secs.append(twin)
+        secs.append({'k': 'RAW', 'id': 0x5151, 'ver': 0, 'sub': 0, 'comp': 0, 'data': b'\x51'})
+        if sec['k'] == 'RAW':
+            secs.append({'k': 'UD', 'ver': 1, 'sub': 1, 'comp': 0x2000, 'data': b'{"between": 1}'})
+    idx = len(secs)
+    secs.append(sec)
+    if after:
+        secs.append(after)
+    pel = M.minimal_pel(secs, ph=M.default_ph(creator=phc))
     with PL.PluginFixtures(spec) as fx:
-        name, entry = find_entry(pel, plugins, idx)
-        calls = fx.calls
+        data_ = M.encode(pel)
+        o = must_decode(data_, make_config(allow_plugins=plugins, every_pel=True), oracle='C04.decode')
+        if o.doc is None:
+            raise Violation('C04.json', 'output is not JSON (see C06)')
+        names = expected_names(pel)
+        if list(o.doc) != names:
+            raise Violation('C04.present', 'sections shown %r, the PEL holds %r - a section was dropped or renamed'
+                            % (list(o.doc), names), sig='C04.present')
+        name, entry = names[2 + idx], need(o.doc, names[2 + idx])
+        for oi, opayload in others:
+            ogot = parse_default_dump(need(need(o.doc, names[2 + oi]), 'Data', names[2 + oi]), names[2 + oi])
+            if ogot != opayload:
+                raise Violation('C04.payload', '%s: the hex dump carries %s, the payload is %s'
+                                % (names[2 + oi], ogot.hex(), opayload.hex()), sig='C04.payload:twin')
+        prior_mod = None
+        if case.get('prior') and secs and secs[0].get('data') == b'prior section':
+            pm = PL.ud_module_name(chr(secs[0]['creator']), comp)
+            prior_mod = 'udparsers.%s.%s' % (pm, pm)
+        calls = [c for c in fx.calls if c[1] != prior_mod]
     dump = need(entry, 'Data', name)
     got = parse_default_dump(dump, name + ' / Data')
     if got != payload:
